@@ -549,3 +549,6 @@ def replay(witness):
     steps = case['steps']
     ra, rb = run_impl(pa, steps), run_impl(pb, steps)
     return [vcanon(v) for v in ra[-1]] != [vcanon(v) for v in rb[-1]]
+
+
+LEVEL_TEXT_EXT = ('C12Hist: host-level (int / float) models of 21 more functions, one dispatch over 57 functions, and history_spelling_irrelevant: histories of calls and operators whose results feed later steps stay equal up to spelling after every step (decidable per-step magnitude condition; history_bound_needed shows it cannot be dropped).')
